@@ -212,7 +212,7 @@ def attr_names(cls):
 
 
 # boundary values: falsy numbers and "another class's default" (each is a legal setting)
-EDGE = {"bias_towards_insert": [0.0, 1.0], "probability": [0.0], "minimum_count": [0, 2], "interval": [1, 7], "step_size": [1.0, 2.5], "max_value": [1.0], "max_steps": [1], "dt": [1.0], "apply_constraints": [True], "scale_atoms": [True]}
+EDGE = {"bias_towards_insert": [0.0, 1.0], "probability": [0.0], "minimum_count": [0, 2], "interval": [1, 7], "step_size": [1.0, 2.5], "max_value": [1.0], "max_steps": [1], "dt": [1.0, 0.1234567, 4e-7], "apply_constraints": [True], "scale_atoms": [True]}
 
 
 def construct(cls, which):
